@@ -197,9 +197,71 @@ def _rat_text(f):
     return f'(({f.numerator} : Rat) / {f.denominator})'
 
 
+def _module_float(tree, name):
+    """module-level `name = <float literal>` -> exact decimal rational text (1e-05 -> 1/100000)"""
+    from fractions import Fraction
+    n = _module_assign(tree, name)
+    v = n.value
+    if not (isinstance(v, ast.Constant) and isinstance(v.value, (int, float)) and not isinstance(v.value, bool)):
+        raise Unsupported(f'{name} is not a numeric literal')
+    f = Fraction(repr(v.value))
+    return f'(({f.numerator} : Rat) / {f.denominator})', n
+
+
+def _coplanar_decision(tree):
+    """`_are_images_coplanar`: the statement sequence is matched exactly; what may vary (and is emitted) is, for each of the
+    two plane distances, whether an abs() is applied, which position and which normal is used."""
+    from py2lean import strip_doc
+    fn = find_func(tree, '_are_images_coplanar')
+    body = strip_doc(fn.body)
+    src = [ast.unparse(x) for x in body]
+    if len(body) != 6:
+        raise Unsupported(f'_are_images_coplanar has {len(body)} statements, 6 expected')
+    if src[0] != 'n_a = get_normal_vector(image_orientation_a)' or src[1] != 'n_b = get_normal_vector(image_orientation_b)':
+        raise Unsupported('normals of _are_images_coplanar are no longer get_normal_vector(image_orientation_x)')
+    if src[2] != 'if 1.0 - np.abs(n_a @ n_b) > tol:\n    return False':
+        raise Unsupported('parallelism test of _are_images_coplanar changed: ' + src[2])
+    if src[5] != 'return abs(dis_a - dis_b) < tol':
+        raise Unsupported('distance comparison of _are_images_coplanar changed: ' + src[5])
+    dflt = {a.arg: d for a, d in zip(fn.args.args[-len(fn.args.defaults):], fn.args.defaults)}
+    if 'tol' not in dflt or ast.unparse(dflt['tol']) != '_DEFAULT_EQUALITY_TOLERANCE':
+        raise Unsupported('default tolerance of _are_images_coplanar changed')
+    specs = []
+    for k, name in ((3, 'dis_a'), (4, 'dis_b')):
+        st = body[k]
+        if not (isinstance(st, ast.Assign) and ast.unparse(st.targets[0]) == name):
+            raise Unsupported(f'statement {k} of _are_images_coplanar is not an assignment to {name}')
+        e = st.value
+        use_abs = False
+        if isinstance(e, ast.Call) and ast.unparse(e.func) in ('abs', 'np.abs') and len(e.args) == 1:
+            use_abs, e = True, e.args[0]
+        if not (isinstance(e, ast.BinOp) and isinstance(e.op, ast.MatMult)):
+            raise Unsupported(f'{name} is not a dot product')
+        l, rgt = ast.unparse(e.left), ast.unparse(e.right)
+        pos = {'np.array(image_position_a, dtype=float)': 'a', 'np.array(image_position_b, dtype=float)': 'b'}.get(l)
+        nrm = {'n_a': 'a', 'n_b': 'b'}.get(rgt)
+        if pos is None or nrm is None:
+            raise Unsupported(f'{name} = {ast.unparse(st.value)} is not position @ normal')
+        specs.append((use_abs, pos, nrm))
+    txt = ('/-- `_are_images_coplanar`: for `dis_a`, `dis_b`: (abs applied, which position, which normal) -/\n'
+           'def coplanarDistance : (Bool × Char × Char) × (Bool × Char × Char) := ('
+           + ', '.join(f"({str(a).lower()}, '{p}', '{n}')" for a, p, n in specs) + ')')
+    return txt, fn
+
+
 def build_T13o(tree):
     spans = []
     out = []
+    # tolerances
+    for py, ln, doc in (('_DEFAULT_EQUALITY_TOLERANCE', 'equalityTolerance', 'tolerance of equality tests (coplanarity, orthogonality)'),
+                        ('_DOT_PRODUCT_PERPENDICULAR_TOLERANCE', 'perpendicularTolerance', 'tolerance on the cosine of the stacking direction'),
+                        ('_DEFAULT_SPACING_RELATIVE_TOLERANCE', 'spacingRelativeTolerance', 'default relative tolerance of slice spacings')):
+        t, node = _module_float(tree, py)
+        out.append(f'/-- spatial.{py}: {doc} -/\ndef {ln} : Rat := {t}')
+        spans.append(node)
+    t, node = _coplanar_decision(tree)
+    out.append(t)
+    spans.append(node)
     # PATIENT_ORIENTATION_OPPOSITES
     n = _module_assign(tree, 'PATIENT_ORIENTATION_OPPOSITES')
     if not isinstance(n.value, ast.Dict):
